@@ -160,6 +160,8 @@ def _flagged(w, ev, slot, name, do, expected, oracle, approx=None,
     w.case('inplace.equiv' if inplace else 'noninplace.receiver_changed',
            name, slot, twin=twin, fault=ev.get('fault') is not None)
 
+    twin_snap = None
+
     def compare(real_t, what):
         if approx is not None:
             approx(real_t, expected, what)
@@ -183,6 +185,11 @@ def _flagged(w, ev, slot, name, do, expected, oracle, approx=None,
         else:
             result, post = res
             if refuse:
+                msg = coherence(result, w.absent_id())
+                if msg:
+                    w.fail(oracle + '.incoherent', '%s(inplace=False) accepted'
+                           ' (%s) and returned an incoherent table: %s'
+                           % (name, expected, msg))
                 w.fail(oracle + '.accepted', '%s(inplace=False) accepted: %s'
                        % (name, expected))
             if result is slot.real:
@@ -194,6 +201,8 @@ def _flagged(w, ev, slot, name, do, expected, oracle, approx=None,
             if post:
                 post()
             out.append('ok')
+            if inplace:
+                twin_snap = Snap(result)
             if not inplace:
                 exp = expected
                 if approx is not None:
@@ -221,6 +230,11 @@ def _flagged(w, ev, slot, name, do, expected, oracle, approx=None,
         else:
             result, post = res
             if refuse:
+                msg = coherence(slot.real, w.absent_id())
+                if msg:
+                    w.fail(oracle + '.incoherent', '%s(inplace=True) accepted '
+                           '(%s) and left an incoherent receiver: %s'
+                           % (name, expected, msg))
                 w.fail(oracle + '.accepted', '%s(inplace=True) accepted: %s'
                        % (name, expected))
             if result is not slot.real:
@@ -229,6 +243,26 @@ def _flagged(w, ev, slot, name, do, expected, oracle, approx=None,
             compare(slot.real, '%s(inplace=True) receiver' % name)
             if post:
                 post()
+            if twin_snap is not None:
+                # both variants ran from the same state: "the in-place
+                # variant leaves the receiver in exactly the state the
+                # non-in-place variant returns" (float results of summing
+                # operations to 1e-12)
+                now = Snap(slot.real)
+                same = now.ids == twin_snap.ids and \
+                    now.m.shape == twin_snap.m.shape and \
+                    md_equal(now.md[0], twin_snap.md[0]) and \
+                    md_equal(now.md[1], twin_snap.md[1])
+                if same and name in ('norm',):
+                    same = bool(np.allclose(now.m, twin_snap.m, rtol=1e-12,
+                                            atol=0, equal_nan=True))
+                elif same:
+                    same = bool(np.array_equal(now.m, twin_snap.m))
+                if not same:
+                    w.fail('inplace.equiv', '%s: in place gives %r / %r, not '
+                           'in place gave %r / %r' % (
+                               name, now.ids, now.m.tolist(), twin_snap.ids,
+                               twin_snap.m.tolist()))
             if approx is not None:
                 slot.ref = ref_from_snap(Snap(slot.real), slot.ref)
             else:
